@@ -71,10 +71,9 @@ RULE = ("Hypothesis draws a DeepONet: trunk FCTrunkNet (1-3 hidden layers of 1-6
         "1/5) and which is handed the SAME function-set objects; a third of the sets of length >= 2 "
         "are sums of two CustomFunctionSets; in every case a fresh function set that the user "
         "evaluated once at n_disc other points (a third of the cases also: n_disc+1 points) is "
-        "handed to the model and compared with the tensor supply - calls where the clean caching rule is "
-        "known to reuse another set's features (set.current_iteration_num == iteration but the "
-        "called model was handed something else since or never this set; D-C14-1) are dropped by "
-        "the interpreter; (ii) a "
+        "handed to the model and compared with the tensor supply - calls whose iteration number equals "
+        "the set's current one although the called model was handed something else since (or never this "
+        "set) are judged as well (the former finding D-C14-1, fixed in dfb039a); (ii) a "
         "second differential run with asym_track in {False (2/3), True} and 0-2 frozen parameter "
         "groups (skipped when it would equal the first run or nothing requires grad). Non-trivial: (output dim >= 2 or (>= 2 functions and >= 2 "
         "locations)) and the second derivatives were compared (differentiation order 2 reached); "
@@ -93,10 +92,9 @@ ASSUMPTIONS = [
     "checked",
     "torch.autograd, torch.nn.Linear, torch.nn.functional.conv1d are trusted",
     "the history model: _forward_branch(set, it) re-samples and re-discretises the set unless "
-    "it == set.current_iteration_num (what DeepONetSingleModuleCondition relies on); a call that is "
-    "skipped under this rule while the model holds other branch features is the known finding "
-    "D-C14-1 (property C14) and is not generated here; every generated call must therefore yield "
-    "the contraction for its own set, also when two sets are used within one iteration number",
+    "it == set.current_iteration_num (what DeepONetSingleModuleCondition relies on), and evaluates the "
+    "branch again when the model holds other branch features (fixed finding D-C14-1); every call must "
+    "therefore yield the contraction for its own set, also when two sets are used within one iteration number",
     "function-set parameters come from a DataSampler (deterministic), so re-sampling a set gives "
     "the same functions and the expected output of a set does not depend on the iteration",
     "a FunctionSet object may be used by several consumers (two DeepONets / conditions, the user "
@@ -104,8 +102,7 @@ ASSUMPTIONS = [
     "sample_params): create_function_batch(points) is documented to return the functions at the "
     "points it is given, so every consumer must get the functions at ITS points whatever the set "
     "was evaluated at before; current_iteration_num is an attribute of the set shared by all "
-    "models, the D-C14-1 rule is therefore applied per called model (dropped when the set's "
-    "iteration number matches but the called model does not hold this set's features)",
+    "models",
     "the feature layout (block / interleaved) found for the first model is also the one of the "
     "second DeepONet (same classes, same library)",
     "frozen parameters / untracked locations: only gradients w.r.t. tensors that require grad are "
@@ -601,9 +598,9 @@ def _history(spec, ctx, cmp, net, ref, best, fn, f_space, in_space, disc_pts, x,
 
     The history is interpreted against a model of the documented caching rule (a function set is
     re-sampled and re-discretised once per iteration number).  Calls for which the clean library is
-    known to leave another set's branch features in the model (set.current_iteration_num ==
+    used to leave another set's branch features in the model (set.current_iteration_num ==
     iteration although this model was handed something else in between / never this set; finding
-    D-C14-1 of C14) are left out of the history."""
+    D-C14-1 of C14, fixed in dfb039a) are part of the history and judged like every other call."""
     ops = spec.get("fb_ops") or []
     if not ops:
         return []
@@ -705,8 +702,9 @@ def _history(spec, ctx, cmp, net, ref, best, fn, f_space, in_space, disc_pts, x,
             it = op["it"]
             cached = it == S["cur"]
             if cached and M["holder"] != s:
-                labels.add("history-dropped-known-stale")
-                continue
+                # same iteration number although this model was handed something else in between (or never
+                # this set): the branch has to be evaluated again for THIS set (was finding D-C14-1, fixed)
+                labels.add("history-other-holder-same-iteration")
             via = op["via"] if form == "repeat" else "direct"
             if via == "cond":
                 if m not in S["cond"]:
